@@ -21,7 +21,12 @@ for d in sorted(os.listdir(os.path.join(V, "seeded"))):
         else:
             hit = [r for r in dj["results"] if r["exit"] == 1 and r["violations"] > 0]
             miss = [r["check"] for r in dj["results"] if not (r["exit"] == 1 and r["violations"] > 0)]
-            det = ", ".join("%s (%s)" % (r["check"], r["first_unit"] or "regress replay / crash confirmation") for r in hit) or "MISSED"
+            def unit(r):
+                u = r.get("first_unit") or ""
+                if "regress/" in u:
+                    return "committed regression " + u.split("regress/")[-1].replace(".json", "")
+                return u or "crash / hang confirmation"
+            det = ", ".join("%s (%s)" % (r["check"], unit(r)) for r in hit) or "MISSED"
             if hit and miss:
                 det += "; not by " + ", ".join(miss)
     rows.append("| %s | %s | %s |" % (d, s, det))
